@@ -484,6 +484,19 @@ def check_equivalent(base, rw, driver, target="sql.sqlite", k=2, schema=None, ti
         return Outcome("sql_unparseable", prql=tb, base=ta, sql=rb["sql"], detail=rb.get("ast_error"))
     if ra["sql"] == rb["sql"]:
         return Outcome("ok", prql=tb, base=ta, sql=rb["sql"], identical=True, solver_s=0.0)
+    if target == "sql.sqlite":
+        # the sqlite target's output must at least prepare on SQLite (cheap, on an empty instance) when the base program's does
+        try:
+            run_sqlite(schema, {}, ra["sql"])
+            base_prepares = True
+        except sqlite3.Error:
+            base_prepares = False
+        if base_prepares:
+            try:
+                run_sqlite(schema, {}, rb["sql"])
+            except sqlite3.Error as e:
+                return Outcome("violation", kind="sqlite_error", prql=tb, base=ta, sql=rb["sql"], base_sql=ra["sql"], data={},
+                               detail=f"SQLite rejects the rewritten program's SQL: {e}")
     db = SymDB(schema, k)
     pre = P.Pre()
     dialect = "sqlite" if target == "sql.sqlite" else "generic"
